@@ -182,21 +182,17 @@ class Ctx:
         env = dict(os.environ)
         env.update(GOENV)
         cmd = ["go", "build", "-tags", tags, "-o", out]
-        if REPO == "/repo":
-            try:
-                shutil.copy(os.path.join(REPO, "go.sum"), os.path.join(HARNESS, "go.sum"))
-            except Exception:
-                pass
-        else:
-            # development against a scratch worktree of the repository: alternate go.mod with the
-            # replace directive pointing there (VERIF_REPO=/tmp/repo-x ./run.py ...)
-            mf = os.path.join(self.scratch, "alt.mod")
+        # always build with a scratch copy of go.mod/go.sum (go -mod=mod adds the indirect requirements
+        # there), so that the committed harness/go.mod is never rewritten; VERIF_REPO=/tmp/repo-x redirects
+        # the replace directive to a scratch worktree of the repository during development
+        mf = os.path.join(self.scratch, "alt.mod")
+        if not os.path.exists(mf):
             with open(os.path.join(HARNESS, "go.mod")) as fh:
                 txt = fh.read().replace("=> /repo", "=> " + REPO)
             with open(mf, "w") as fh:
                 fh.write(txt)
             shutil.copy(os.path.join(REPO, "go.sum"), os.path.join(self.scratch, "alt.sum"))
-            cmd += ["-modfile", mf]
+        cmd += ["-modfile", mf]
         cmd += ["./cmd/" + driver]
         p = subprocess.run(cmd, cwd=HARNESS, env=env, stdout=subprocess.PIPE, stderr=subprocess.STDOUT,
                            text=True, timeout=900)
@@ -258,7 +254,8 @@ def finish(ctx, level, coverage, assumptions, exit_on_done=True):
     for v in ctx.violations:
         hit = None
         for f in findings:
-            if fnmatch.fnmatchcase(v["sig"], f["signature"]):
+            pats = f["signature"] if isinstance(f["signature"], list) else [f["signature"]]
+            if any(fnmatch.fnmatchcase(v["sig"], p) for p in pats):
                 hit = f
                 break
         if hit is not None:
